@@ -356,4 +356,64 @@ example : replyInfo (process ⟨false, []⟩ exEcho []) =
   decide
 example : process ⟨false, []⟩ exUdp [10, 1, 2, 3] = .drop := by decide
 
+/-! ### two behaviours of the reply branch that the statement does not cover
+
+Reading of the statement: it constrains *where traffic goes* (forward only to the packet's own
+destination on this host; answer echo/traceroute only towards the previous hop, addresses swapped,
+path reversed; drop the rest).  Both behaviours below keep all of that — the reply goes to
+`prevHop` only, with swapped addresses and the reversed path content — but produce a reply the next
+hop cannot use.  A reply that does not decode is discarded by the previous hop: nothing reaches an
+unintended host, so neither is a violation of C44; they are recorded here (and in the registry
+`level_note`) as facts about the code. -/
+
+/-- (a) whatever extension headers the request had, the reply's SCION header announces SCMP as
+next header — also when the E2E extension is serialized in front of the SCMP header (`e = true`) -/
+theorem reply_nexthdr_is_scmp (cfg : Cfg) (data underlay : Bytes) (rh : Hdr) (t : Nat) (e : Bool)
+    (h : process cfg data underlay = .reply rh t e) : rh.cmn.nextHdr = 202 := by
+  obtain ⟨_, _, _, _, _, _, _, _, _, _, _, _, _, hn⟩ :=
+    info_request_reply_to_prev_hop cfg data underlay rh t e h
+  exact hn
+
+/-- (b) reversing a one-hop path yields a SCION path but `reverseSCION` leaves the `PathType`
+field as it was (only the EPIC case rewrites it) -/
+theorem onehop_reply_keeps_pathtype (pt : Nat) (i : Info) (h1 h2 : Hop) (pt' : Nat) (p' : PathV)
+    (h : reversePath pt (.onehop i h1 h2) = some (pt', p')) :
+    pt' = pt ∧ ∃ body, p' = .scion ⟨0, 0, 2, 0, 0⟩ body ∧ body.length = 32 := by
+  simp only [reversePath] at h
+  split at h
+  · cases h
+  · cases h
+    exact ⟨rfl, _, rfl, by simp [length_encInfo_c44, length_encHop_c44]⟩
+where
+  length_encInfo_c44 (i : Info) : (encInfo i).length = 8 := by simp [encInfo, natBE_len]
+  length_encHop_c44 (h : Hop) : (encHop h).length = 12 := by simp [encHop, natBE_len, fit]
+  natBE_len (k n : Nat) : (natBE k n).length = k := by
+    induction k with
+    | zero => simp [natBE]
+    | succ k ih => simp [natBE, ih]
+
+/-- … so such a reply (PathType one-hop, 36 path bytes) is rejected by `SCION.DecodeFromBytes`:
+a concrete echo request over a one-hop path, its reply, and the decoder's answer -/
+def exOhpReq : Hdr :=
+  { cmn := ⟨0, 0, 1, 202, 17, 8, 2, 0, 0⟩, dstIA := 0x0001ff0000000110, srcIA := 0x0002ff0000000220,
+    rawDst := [10, 1, 2, 3], rawSrc := [10, 9, 9, 9],
+    path := .onehop ⟨false, true, 7, 1700000000⟩ ⟨false, false, 63, 0, 5, [1, 2, 3, 4, 5, 6]⟩
+      ⟨false, false, 63, 9, 0, [6, 5, 4, 3, 2, 1]⟩ }
+
+def replyDecodes (o : Out) : Option Bool :=
+  match o with
+  | .reply rh _ _ =>
+    match encodeSCION rh with
+    | .ok rb => (match decodeSCION (rb ++ [129, 0, 0, 0, 0x12, 0x34, 0, 1]) with
+      | .ok _ => some true | .error _ => some false)
+    | .error _ => none
+  | _ => none
+
+example : (match encodeSCION exOhpReq with
+    | .ok b => replyDecodes (process exCfg (b ++ [128, 0, 0, 0, 0x12, 0x34, 0, 1]) [10, 1, 2, 3])
+    | .error _ => none) = some false := by decide
+
+/-- for comparison: the reply to the same request over an empty path decodes -/
+example : replyDecodes (process exCfg exEcho [10, 1, 2, 3]) = some true := by decide
+
 end Scion.C44
